@@ -140,6 +140,23 @@ fn run_path(c: &mut Client, bodies: &mut Bodies, path: &[J], probe_all: bool) ->
   json!({ "evs": evs })
 }
 
+/// A request sequence against a service that was STARTED on a directory holding the models `ms` (another instance of
+/// the service, on a port of its own): the first event is the start, with the probes of what can be evaluated.
+fn run_started_path(bodies: &mut Bodies, ms: &[String], path: &[J]) -> J {
+  let dir = crate::drive::c17::write_model_dir(ms);
+  let server = crate::util::silenced(|| crate::http::start_server_on(Some(dir.to_string_lossy().to_string())));
+  let _ = std::fs::remove_dir_all(&dir);
+  let mut c = Client::new(server.port);
+  let mut evs = vec![json!({"ev": "start", "cands": ms, "probe": probe(&mut c, bodies)})];
+  for op in path {
+    let b = send(&mut c, bodies, op);
+    let mut e = event_of(op, b);
+    e["probe"] = probe(&mut c, bodies);
+    evs.push(e);
+  }
+  json!({ "evs": evs })
+}
+
 fn random_path(rng: &mut Rng, len: usize) -> Vec<J> {
   let kinds = ["bad-json", "bad-base64", "bad-utf8", "bad-xml", "no-content", "no-name", "no-namespace", "unknown-path", "bad-input", "empty-body"];
   let mut p = vec![];
@@ -197,7 +214,12 @@ pub fn check(mut ctx: Ctx, replay: Option<J>) -> ! {
     if case.get("path").is_some() {
       let mut bodies = Bodies::new();
       let ops: Vec<J> = case["path"].as_array().cloned().unwrap_or_default();
-      let p = run_path(&mut client, &mut bodies, &ops, true);
+      let p = if ops.first().map_or(false, |o| o["op"] == "start") {
+        let ms: Vec<String> = ops[0]["ms"].as_array().map(|a| a.iter().filter_map(|m| m.as_str().map(|m| m.to_string())).collect()).unwrap_or_default();
+        run_started_path(&mut bodies, &ms, &ops[1..])
+      } else {
+        run_path(&mut client, &mut bodies, &ops, true)
+      };
       judge_paths(&mut ctx, &tlc, &[p], &[ops], &bodies, "replay");
     } else {
       let recs = vec![echo_one(&mut client, &case["value"], case["kind"].as_str().unwrap_or("json"))];
@@ -242,6 +264,17 @@ pub fn check(mut ctx: Ctx, replay: Option<J>) -> ! {
     paths.push(run_path(&mut client, &mut bodies, &ops, true));
     ops_of.push(ops);
   }
+  // the service started on a directory of model files (clashing and junk files among them), then driven on
+  let n_started = if quick { 6 } else { 30 };
+  for _ in 0..n_started {
+    let ms: Vec<String> = ALPHABET.iter().take(9).filter(|_| rng.below(100) < 45).map(|m| m.0.to_string()).collect();
+    let ops = random_path(&mut rng, 12);
+    paths.push(run_started_path(&mut bodies, &ms, &ops));
+    let mut all = vec![json!({"op": "start", "ms": ms})];
+    all.extend(ops);
+    ops_of.push(all);
+  }
+  ctx.cov("services_started_on_a_directory_of_model_files", json!(n_started));
   ctx.cov("random_request_sequences", json!(n_rand));
   ctx.cov("distinct_response_bodies", json!(bodies.list.len()));
   ctx.sample(json!({"request_sequence": ops_of.iter().find(|o| o.len() >= 4).cloned()}));
